@@ -13,7 +13,7 @@ from ..core import AnalysisError, norm, const_fold
 from .. import boolx as B
 from .. import q
 from ..fx import FX
-from ..rules_stream import fx_of, fail_closed, prio, fsm_sanity, short
+from ..rules_stream import fx_of, fail_closed, prio, fsm_sanity, short, fsm_txn_state
 
 UART = "litex/soc/cores/uart.py"
 SPIM = "litex/soc/cores/spi/spi_master.py"
@@ -55,6 +55,8 @@ def run(ctx):
                    "IDLE; I2C: effective priority START > RESTART > WRITE > READ > STOP; bit counter 8 data bits + ack", min_sites=30)
     ctx.rule("Q4", "Timer: decrement under en & value != 0, reload at zero, load when disabled, latch on update; Watchdog: feed "
                    "has priority, decrement saturates at 0, expiry flagged only while enabled", min_sites=11)
+    ctx.rule("Q5", "per-frame FSM registers (bit counters, lengths) are re-initialised in the idle state, in a state every frame "
+                   "crosses first, or on every exit of idle that leads to the counting state", min_sites=10)
     ctx.rule("PRIO", "no dead driver", min_sites=10)
 
     # ================================================================ Q1
@@ -67,6 +69,11 @@ def run(ctx):
             ctx.analysed["paths"] += nconf
             ctx.ob("Q1", rel, cls, f"fsm:{info.alias or info.name}", not problems, "; ".join(d for _, d in problems[:3]), info.node)
         prio(ctx, "PRIO", fx, cls)
+        fsm_txn_state(ctx, "Q5", fx, cls, persistent={"self.scl_o": "pin level register, holds the bus state between commands",
+                                                     "self.sda_o": "pin level register, holds the bus state between commands",
+                                                     "address": "shift register: every command shifts in all address bytes (counted by "
+                                                                "addr_bytes_count, which is re-initialised) before it is used",
+                                                     "data": "shift register: all data bytes are shifted in (data_bytes_count) before use"})
 
     # ================================================================ Q2 UART
     um = ctx.mod(UART)
@@ -155,7 +162,7 @@ def run(ctx):
     ok = len(ex) == 1 and ex[0].dst == "STOP" and B.equivalent(ex[0].eff(), B.from_expr("clk_fall & (count == self.length - 1)"))
     ctx.ob("Q3", SPIM, "SPIMaster", "RUN ends after `length` clock pulses", ok, "" if ok else f"{[t.gtext() for t in ex]}")
     cz = [a for a in sp.find(domain="sync", target="count") if a.v == "0"]
-    ok = len(cz) == 1 and cz[0].state[1] == "START"
+    ok = any(a.state[1] == "START" and not a.guards for a in cz) and all(a.state[1] in ("START", "IDLE") for a in cz)
     ctx.ob("Q3", SPIM, "SPIMaster", "count cleared in START", ok, "" if ok else f"{[(a.state) for a in cz]}")
     ce = sp.find(domain="comb", target="clk_enable")
     ok = len(ce) == 1 and ce[0].state[1] == "RUN" and ce[0].v == "1"
